@@ -22,10 +22,14 @@ const (
 	TReopen
 	TGet
 	TSetMany // N keys starting at K with stride Stride, values V+i*VStride
+	// TFillToFrontier inserts fresh sequential keys (from Key upwards, value Val)
+	// until the tree uses all but N of the whole pages its backing buffer
+	// currently holds: a storage event, the instant just before the buffer grows.
+	TFillToFrontier
 	NumTOps
 )
 
-var TOpNames = []string{"Set", "DeleteBelow", "IterateKV", "IterateKV(rewrite)", "Reset", "CloseReopen", "Get", "SetMany"}
+var TOpNames = []string{"Set", "DeleteBelow", "IterateKV", "IterateKV(rewrite)", "Reset", "CloseReopen", "Get", "SetMany", "FillToFrontier"}
 
 type TOp struct {
 	K      int    `json:"k"`
@@ -194,6 +198,15 @@ func genTree(seed uint64, reopen bool) *TreePlan {
 			p.Ops = append(p.Ops, TOp{K: TReopen})
 		}
 	}
+	if r.IntN(8) == 0 {
+		// place a fill-to-frontier (and a reopen right after it) somewhere in the history
+		at := r.IntN(len(p.Ops) + 1)
+		fill := []TOp{{K: TFillToFrontier, Key: 1<<40 + uint64(r.IntN(1000))*1000003, Val: drawVal(), N: r.IntN(3)}}
+		if reopen {
+			fill = append(fill, TOp{K: TReopen})
+		}
+		p.Ops = append(p.Ops[:at], append(fill, p.Ops[at:]...)...)
+	}
 	if reopen {
 		p.Ops = append(p.Ops, TOp{K: TReopen})
 	}
@@ -213,6 +226,7 @@ type treeRun struct {
 }
 
 type treeStats struct {
+	frontierFills                                                                                      int
 	splits, recycled, reused, reopens, reopensWithFree, deletedKeys, growths, deleteBelows, leafMaxHit int
 }
 
@@ -325,7 +339,7 @@ func runTree(plan *TreePlan, prop string, dir string) (res *RunResult) {
 		res.Steps = t.opIdx
 		res.Extra = map[string]int{"splits": t.stats.splits, "recycled_pages": t.stats.recycled, "reopens": t.stats.reopens,
 			"reopens_with_free_pages": t.stats.reopensWithFree, "deleted_keys": t.stats.deletedKeys, "growths": t.stats.growths,
-			"delete_belows": t.stats.deleteBelows, "reused_pages": t.stats.reused}
+			"delete_belows": t.stats.deleteBelows, "reused_pages": t.stats.reused, "fills_to_page_frontier": t.stats.frontierFills}
 	}()
 	if err := t.open(); err != nil {
 		res.Abort = "open: " + err.Error()
@@ -359,6 +373,23 @@ func runTree(plan *TreePlan, prop string, dir string) (res *RunResult) {
 					break
 				}
 			}
+		case TFillToFrontier:
+			// the simulator owns the backing store: drive the tree to the page
+			// frontier of its current buffer
+			k := op.Key
+			for guard := 0; guard < 400000; guard++ {
+				st := t.tree.Stats()
+				whole := st.Allocated / st.PageSize
+				if st.NumPages >= whole-1-op.N {
+					break
+				}
+				if _, dup := t.model[k]; !dup {
+					t.tree.Set(k, op.Val)
+					t.model[k] = op.Val
+				}
+				k++
+			}
+			t.stats.frontierFills++
 		case TDeleteBelow:
 			t.stats.deleteBelows++
 			before := t.tree.Stats()
